@@ -15,6 +15,7 @@ STD_ENUMS = {
     'Ordering': ['Less', 'Equal', 'Greater'],
     'EitherOrBoth': ['Both', 'Left', 'Right'],
     'Cow': ['Borrowed', 'Owned'],
+    'DiffResult': ['Left', 'Both', 'Right'],      # diff::Result of the `diff` crate (declaration order)
 }
 STD_DISCR = {'Ordering': {'Less': -1, 'Equal': 0, 'Greater': 1}}
 
@@ -956,19 +957,25 @@ class Engine:
         raise Unsupported('cast kind %s' % kind)
 
     # ------------------------------------------------------------------ execution
-    def exec_fn(self, st, fn, args):
-        """-> list of Outcome. `st` is consumed (may be mutated / shared with one outcome)."""
+    def exec_fn(self, st, fn, args, start_bb=0, init_locals=None):
+        """-> list of Outcome. `st` is consumed (may be mutated / shared with one outcome).
+        start_bb/init_locals: begin in the middle of the function from a harness-supplied frame (inductive steps over loops)."""
         frame = next(self.counter)
         self.stats['fns_executed'][fn.name] = fn.fingerprint
-        if len(args) != len(fn.params):
+        if init_locals is not None:
+            for k, v in init_locals.items():
+                st.store[(frame, k)] = v
+        elif len(args) != len(fn.params):
             raise Unsupported('arity mismatch calling %s: %d vs %d' % (fn.name, len(args), len(fn.params)))
-        for (p, _), a in zip(fn.params, args):
-            st.store[(frame, p)] = a
+        else:
+            for (p, _), a in zip(fn.params, args):
+                st.store[(frame, p)] = a
+        st.notes['frame:' + fn.name] = frame
         if st.depth > self.inline_depth:
             raise Unsupported('inline depth exceeded at %s' % fn.name)
         st.depth += 1
         outcomes = []
-        work = [(st, 0)]
+        work = [(st, start_bb)]
         while work:
             s, bb = work.pop()
             self._run_block(s, frame, fn, bb, work, outcomes)
@@ -1285,6 +1292,26 @@ class Engine:
         return Opaque('havoc', next(self.counter))
 
     # ------------------------------------------------------------------ harness helpers
+    def run_from(self, name, start_bb, locals_by_name, st=None, extra_locals=None):
+        """execute from basic block `start_bb` with source-level variables given by name (via MIR debug info)"""
+        st = st or State()
+        fn = self.get_fn(name)
+        init = {}
+        for k, v in locals_by_name.items():
+            if k not in fn.debug:
+                raise Unsupported('no debug info for variable %s in %s' % (k, name))
+            init[fn.debug[k]] = v
+        for k, v in (extra_locals or {}).items():
+            init[k] = v
+        outs = self.exec_fn(st, fn, [], start_bb=start_bb, init_locals=init)
+        self.stats['paths'] += len(outs)
+        return outs
+
+    def local_by_name(self, st, name, var):
+        fn = self.get_fn(name)
+        frame = st.notes.get('frame:' + name)
+        return st.store.get((frame, fn.debug[var]), UNDEF)
+
     def run(self, name, args, st=None):
         st = st or State()
         fn = self.get_fn(name)
